@@ -90,6 +90,10 @@ def record_chunks(max_len, max_dim):
     use_repo()
     from glue.utils.array import iterate_chunks, find_chunk_shape
     recs = []
+    # a zero-dimensional array (what a single-element view leaves) holds one element: exactly one, empty, chunk
+    for n_max in (1, 2, 1000):
+        ch = [[[s.start, s.stop] for s in sl] for sl in iterate_chunks((), n_max=n_max)]
+        recs.append({'shape': [], 'limit': n_max, 'mode': 'n_max', 'chunks': ch, 'chunk_shape': []})
     for nd in range(1, max_dim + 1):
         for shape in itertools.product(range(1, max_len + 1), repeat=nd):
             size = int(np.prod(shape))
